@@ -436,21 +436,27 @@ BootStart(b) ==
   /\ UNCHANGED <<graphVars, atTime, clean, now, c02bad, redoBad, everDone, everUndone, failedDo, failedUndo, aborted>>
   /\ UNCHANGED <<rFixed, a_bad, d_bad>>
 
-\* named so that TLC's action coverage shows the interesting branches were taken
-RebootResolving == BootStart(bootId + 1) /\ status' # status
-RebootKeeping   == BootStart(bootId + 1) /\ status' = status
-SnapdRestart    == BootStart(bootId)
-HRestartRequesting == HRestartEnv /\ fromBoot' # fromBoot
-HRestartQuiet      == HRestartEnv /\ fromBoot' = fromBoot
-FinishRequesting   == RFinishEnv /\ pend' # pend
-FinishQuiet        == RFinishEnv /\ pend' = pend
+\* Named sub-actions, so that the action labels of the dumped state graph show that the interesting branches
+\* were taken. A state in which overlord/state has panicked ("change unexpectedly became unready", known finding
+\* C03) is terminal: the daemon dies there.
+Alive == ~panicked
+NEnsure            == Alive /\ REnsurePass
+FinishRequesting   == Alive /\ RFinishEnv /\ pend' # pend
+FinishQuiet        == Alive /\ RFinishEnv /\ pend' = pend
+HRestartRequesting == Alive /\ HRestartEnv /\ fromBoot' # fromBoot
+HRestartQuiet      == Alive /\ HRestartEnv /\ fromBoot' = fromBoot
+NAbort             == Alive /\ \E c \in Changes : RUserAbort(c)
+NTick              == Alive /\ RTick
+RebootResolving    == Alive /\ BootStart(bootId + 1) /\ status' # status
+RebootKeeping      == Alive /\ BootStart(bootId + 1) /\ status' = status
+SnapdRestart       == Alive /\ BootStart(bootId)
 
 RNext ==
-  \/ REnsurePass
+  \/ NEnsure
   \/ FinishRequesting \/ FinishQuiet
   \/ HRestartRequesting \/ HRestartQuiet
-  \/ \E c \in Changes : RUserAbort(c)
-  \/ RTick
+  \/ NAbort
+  \/ NTick
   \/ RebootResolving \/ RebootKeeping \/ SnapdRestart
 
 -----------------------------------------------------------------------------
@@ -491,6 +497,7 @@ RView == <<graphVars, status, waited, atTime, now, running, rdy, stopped, panick
 \* cfg helpers
 Chain == {[t \in Tasks |-> IF t = 1 THEN {} ELSE {t - 1}]}
 ChainFork == Chain \cup {[t \in Tasks |-> IF t = 1 THEN {} ELSE {1}]}
+ChainForkSide == ChainFork \cup {[t \in Tasks |-> IF t = 2 THEN {1} ELSE {}]}
 BoundAll  == [Tasks -> SUBSET Dirs]
 BoundSome == [Tasks -> {{}, {"do"}, {"undo"}}]
 BoundNone == {[t \in Tasks |-> {}]}
@@ -555,6 +562,15 @@ E03e == ~e_bad
 
 E03 == E03a /\ E03b /\ E03c /\ E03d /\ E03e
 
+\* as checked by TLC: everywhere except in the terminal states after the known Change.Abort panic, which is
+\* reachable only through a user abort (never through the restart manager or the engine's own failure handling)
+I_E03a == panicked \/ E03a
+I_E03b == panicked \/ E03b
+I_E03c == panicked \/ E03c
+I_E03d == panicked \/ E03d
+I_E03e == panicked \/ E03e
+PanicOnlyByAbort == panicked => aborted # {}
+
 \* the R-operators are TaskEngine's operators on TaskEngine's variables
 RefinesEnsure == [][REnsurePass => EnsurePass]_rvars
 RefinesFinish == [][\A t \in Tasks : \A res \in {"ok", "err"} : RFinish(t, res, 0, "Done") => Finish(t, res, 0, "Done")]_rvars
@@ -563,11 +579,11 @@ RefinesAbort  == [][\A c \in Changes : RUserAbortCore(c) => UserAbortCore(c)]_rv
 \* (c, "its waiters run") after the reboot that was asked for has happened the change goes on: with handlers
 \* returning, Ensure being called and the awaited reboot eventually happening, every change settles
 WaitingForReboot == \E t \in Tasks : status[t] = "Wait" /\ waitBoot[t] = bootId
-AskedReboot == WaitingForReboot /\ running = {} /\ BootStart(bootId + 1)
+AskedReboot == Alive /\ WaitingForReboot /\ running = {} /\ BootStart(bootId + 1)
 RNextLive ==
-  \/ REnsurePass \/ RFinishEnv \/ HRestartEnv
-  \/ \E c \in Changes : RUserAbort(c)
-  \/ RTick
+  \/ NEnsure \/ FinishRequesting \/ FinishQuiet \/ HRestartRequesting \/ HRestartQuiet
+  \/ NAbort
+  \/ NTick
   \/ AskedReboot \/ SnapdRestart
 RFairness ==
   /\ WF_rvars(REnsurePass)
